@@ -19,7 +19,7 @@ import ast
 from ..engine import Engine
 from ..report import Report
 from ..cfg import Node
-from ..facts import path_of, canon, holds, parse_atom
+from ..facts import path_of, canon, holds, parse_atom, atoms_of_test
 from ..model import walk_own
 from ..resolve import Ctx
 from .. import dataflow
@@ -542,8 +542,12 @@ def b3(e: Engine, rep: Report):
     # outside it
     inner = [n for n in g.of_kind('iter') if isinstance(n.ast, ast.For) and
              n is not lp and in_loop(n, lp)]
+    def is_join(n):
+        # the recipient is added to a group that exists already
+        return isinstance(n.ast.func, ast.Attribute) and \
+            ast.unparse(n.ast.func.value).endswith('.recipients')
     news = [n for n in g.nodes if count(n) and
-            not any(in_loop(n, i) for i in inner)]
+            not any(in_loop(n, i) for i in inner) and not is_join(n)]
     rep.evaluations += 1
     if news and not inner and _find_or_create(e, rep, g, fx, where, lp, news,
                                               in_loop):
@@ -561,16 +565,48 @@ def b3(e: Engine, rep: Report):
                     isinstance(t.ast.ops[0], ast.Eq) and
                     'repl' in ast.unparse(t.ast)]
 
-        def step(x, label, st):
+        # the search may sit in a helper that hands back the group it found
+        # or None: the caller's `found is None` test goes the way of the
+        # return that was taken (a group in the table is never None: groups
+        # are made by the creation sites only)
+        assigned = {}
+        for s2 in g.of_kind('stmt'):
+            if isinstance(s2.ast, ast.Assign) and \
+                    len(s2.ast.targets) == 1 and \
+                    isinstance(s2.ast.targets[0], ast.Name) and \
+                    isinstance(s2.ast.value, ast.Call):
+                for kf in getattr(s2.frame, 'children', ()):
+                    if kf.call is s2.ast.value:
+                        assigned[id(kf)] = path_of(s2.ast.targets[0],
+                                                   s2.frame)
+
+        def step(x, label, st0):
+            st, ret = st0
+            if isinstance(label, tuple):
+                return st0
+            if x.kind == 'stmt' and isinstance(x.ast, ast.Return) and \
+                    id(x.frame) in assigned:
+                v = x.ast.value
+                none = v is None or (isinstance(v, ast.Constant) and
+                                     v.value is None)
+                ret = (assigned[id(x.frame)], 'none' if none else 'obj')
+            if x.kind == 'test' and label in ('T', 'F') and ret is not None:
+                for pol, k in atoms_of_test(x.ast, label == 'T', x.frame):
+                    if k == ret[0] + ' is None' and \
+                            pol != (ret[1] == 'none'):
+                        return None
+                    if k == ret[0] and pol and ret[1] == 'none':
+                        return None
             if x is lp:
-                return 'start' if label == 'body' else st
+                return ('start' if label == 'body' else st, None)
             if x in inner and label == 'done':
-                return 'searched' if st == 'start' else st
+                return ('searched' if st == 'start' else st, ret)
             if x in eq_tests and label == 'T':
-                return 'matched'
-            return st
+                return ('matched', ret)
+            return (st, ret)
         pth = dataflow.typestate_witness(
-            g, 'pre', step, lambda x, st: x is n and st != 'searched')
+            g, ('pre', None), step,
+            lambda x, st: x is n and st[0] != 'searched')
         rep.check(pth is None and bool(eq_tests), 'B3', where,
                   'new group only after the search found no equal reply',
                   'a new group (one more bounce) can be created although '
@@ -689,8 +725,11 @@ def b3(e: Engine, rep: Report):
                       'distinct reply)' % ast.unparse(r), loc=m.loc(n),
                       reason='reply of the _split_by_reply group / of the '
                       'whole-message failure')
-    if nsites < 3:
-        rep.error('anchor vanished: _perm_fail call sites (%d < 3)' % nsites)
+    # (three on the pinned tree; two when the per-group loops of
+    # _handle_partial_relay and _retry_later share one helper - that each of
+    # them still bounces per group is B3's consumer obligation)
+    if nsites < 2:
+        rep.error('anchor vanished: _perm_fail call sites (%d < 2)' % nsites)
 
 
 def _find_or_create(e, rep, g, fx, where, lp, places, in_loop):
@@ -949,8 +988,8 @@ def b6(e: Engine, rep: Report):
                           before[0].text(50) if before else ''),
                       loc=before[0].loc() if before else m.loc(call),
                       reason='no write to a reply before the grouping call')
-    if n < 2:
-        rep.error('anchor vanished: callers of _split_by_reply (%d < 2)' % n)
+    if n < 1:
+        rep.error('anchor vanished: callers of _split_by_reply (%d < 1)' % n)
 
 
 # ---------------------------------------------------------------------- B7
@@ -1066,8 +1105,8 @@ def b8(e: Engine, rep: Report):
                                 ast.unparse(t), h.text(50)), loc=w.loc(),
                             witness=dataflow.render_path(pth, 10))
     rep.evaluations += 1
-    if n_fn < 2:
-        rep.error('anchor vanished: callers of the bouncers (%d < 2)' % n_fn)
+    if n_fn < 1:
+        rep.error('anchor vanished: callers of the bouncers (%d < 1)' % n_fn)
     else:
         rep.ok('B8', QUEUE, 'callers of the bouncers looked at',
                reason='%d functions' % n_fn)
